@@ -1,0 +1,181 @@
+//go:build verif
+
+package ipam
+
+import (
+	"context"
+	"sort"
+
+	corev1 "k8s.io/api/core/v1"
+	informers "k8s.io/client-go/informers/core/v1"
+	clientset "k8s.io/client-go/kubernetes"
+	"k8s.io/client-go/tools/record"
+	"k8s.io/client-go/util/workqueue"
+	"k8s.io/klog/v2"
+
+	v1 "sigs.k8s.io/node-ipam-controller/pkg/apis/clustercidr/v1"
+	clustercidrclient "sigs.k8s.io/node-ipam-controller/pkg/client/clientset/versioned/typed/clustercidr/v1"
+	clustercidrinformers "sigs.k8s.io/node-ipam-controller/pkg/client/informers/externalversions/clustercidr/v1"
+	cidrset "sigs.k8s.io/node-ipam-controller/pkg/controller/ipam/multicidrset"
+)
+
+// Verification hooks (build tag verif). They only expose unexported entry points and
+// read-only views of the allocator state; nothing here is compiled into a normal build.
+
+// VerifAllocator wraps the real allocator.
+type VerifAllocator struct {
+	r *multiCIDRRangeAllocator
+}
+
+// VerifNew runs the real constructor.
+func VerifNew(
+	ctx context.Context,
+	client clientset.Interface,
+	networkClient clustercidrclient.ClusterCIDRInterface,
+	nodeInformer informers.NodeInformer,
+	clusterCIDRInformer clustercidrinformers.ClusterCIDRInformer,
+	allocatorParams CIDRAllocatorParams,
+	nodeList *corev1.NodeList,
+) (*VerifAllocator, error) {
+	a, err := NewMultiCIDRRangeAllocator(ctx, client, networkClient, nodeInformer, clusterCIDRInformer, allocatorParams, nodeList, nil)
+	if err != nil {
+		return nil, err
+	}
+	return &VerifAllocator{r: a.(*multiCIDRRangeAllocator)}, nil
+}
+
+// Allocator returns the public interface of the wrapped allocator.
+func (v *VerifAllocator) Allocator() CIDRAllocator { return v.r }
+
+// SyncNode exposes syncNode.
+func (v *VerifAllocator) SyncNode(logger klog.Logger, key string) error { return v.r.syncNode(logger, key) }
+
+// SyncClusterCIDR exposes syncClusterCIDR.
+func (v *VerifAllocator) SyncClusterCIDR(ctx context.Context, key string) error {
+	return v.r.syncClusterCIDR(ctx, key)
+}
+
+// ProcessNextNodeItem exposes processNextNodeWorkItem.
+func (v *VerifAllocator) ProcessNextNodeItem(ctx context.Context) bool {
+	return v.r.processNextNodeWorkItem(ctx)
+}
+
+// ProcessNextCIDRItem exposes processNextCIDRWorkItem.
+func (v *VerifAllocator) ProcessNextCIDRItem(ctx context.Context) bool {
+	return v.r.processNextCIDRWorkItem(ctx)
+}
+
+// SetQueues replaces the rate limited work queues (before any worker runs).
+func (v *VerifAllocator) SetQueues(nodeQueue, cidrQueue workqueue.RateLimitingInterface) {
+	if nodeQueue != nil {
+		v.r.nodeQueue = nodeQueue
+	}
+	if cidrQueue != nil {
+		v.r.cidrQueue = cidrQueue
+	}
+}
+
+// SetRecorder replaces the event recorder.
+func (v *VerifAllocator) SetRecorder(rec record.EventRecorder) { v.r.recorder = rec }
+
+// VerifPool is a read-only view of one MultiCIDRSet.
+type VerifPool struct {
+	Present   bool
+	Label     string
+	MaxCIDRs  int
+	NodeMask  int
+	Allocated int
+	Next      int
+	Keys      []string
+}
+
+// VerifEntry is a read-only view of one cidrMap entry.
+type VerifEntry struct {
+	Selector    string
+	Index       int
+	Name        string
+	Terminating bool
+	Associated  []string
+	V4, V6      VerifPool
+}
+
+func verifPool(s *cidrset.MultiCIDRSet) VerifPool {
+	if s == nil {
+		return VerifPool{}
+	}
+	a, n, k := s.VerifSnapshot()
+	return VerifPool{Present: true, Label: s.Label, MaxCIDRs: s.MaxCIDRs, NodeMask: s.NodeMaskSize, Allocated: a, Next: n, Keys: k}
+}
+
+// Snapshot returns the cidrMap contents, sorted by selector then position. Takes the lock.
+func (v *VerifAllocator) Snapshot() []VerifEntry {
+	v.r.lock.Lock()
+	defer v.r.lock.Unlock()
+	out := []VerifEntry{}
+	for sel, list := range v.r.cidrMap {
+		for i, cc := range list {
+			assoc := make([]string, 0, len(cc.AssociatedNodes))
+			for n, ok := range cc.AssociatedNodes {
+				if ok {
+					assoc = append(assoc, n)
+				}
+			}
+			sort.Strings(assoc)
+			out = append(out, VerifEntry{
+				Selector: sel, Index: i, Name: cc.Name, Terminating: cc.Terminating, Associated: assoc,
+				V4: verifPool(cc.IPv4CIDRSet), V6: verifPool(cc.IPv6CIDRSet),
+			})
+		}
+	}
+	sort.Slice(out, func(i, j int) bool {
+		if out[i].Selector != out[j].Selector {
+			return out[i].Selector < out[j].Selector
+		}
+		return out[i].Index < out[j].Index
+	})
+	return out
+}
+
+// OrderedMatching exposes orderedMatchingClusterCIDRs (names of the entries, in order). Takes the lock.
+func (v *VerifAllocator) OrderedMatching(node *corev1.Node, occupy bool) ([]string, error) {
+	v.r.lock.Lock()
+	defer v.r.lock.Unlock()
+	l, err := v.r.orderedMatchingClusterCIDRs(node, occupy)
+	if err != nil {
+		return nil, err
+	}
+	names := make([]string, len(l))
+	for i, cc := range l {
+		names[i] = cc.Name
+	}
+	return names, nil
+}
+
+// MatchCIDRLabels exposes matchCIDRLabels.
+func (v *VerifAllocator) MatchCIDRLabels(node *corev1.Node, label string) (bool, int, error) {
+	return v.r.matchCIDRLabels(node, label)
+}
+
+// NodeSelectorKey exposes nodeSelectorKey.
+func (v *VerifAllocator) NodeSelectorKey(cc *v1.ClusterCIDR) (string, error) {
+	return v.r.nodeSelectorKey(cc)
+}
+
+// VerifNodeSelectorKey is nodeSelectorKey without an allocator (it uses no allocator state).
+func VerifNodeSelectorKey(cc *v1.ClusterCIDR) (string, error) {
+	return (&multiCIDRRangeAllocator{}).nodeSelectorKey(cc)
+}
+
+// VerifMatchCIDRLabels is matchCIDRLabels without an allocator (it uses no allocator state).
+func VerifMatchCIDRLabels(node *corev1.Node, label string) (bool, int, error) {
+	return (&multiCIDRRangeAllocator{}).matchCIDRLabels(node, label)
+}
+
+// VerifLess evaluates PriorityQueue.Less on two items.
+func VerifLess(a, b *cidrset.ClusterCIDR, cntA, cntB int, selA, selB string) bool {
+	pq := PriorityQueue{
+		&PriorityQueueItem{clusterCIDR: a, labelMatchCount: cntA, selectorString: selA},
+		&PriorityQueueItem{clusterCIDR: b, labelMatchCount: cntB, selectorString: selB},
+	}
+	return pq.Less(0, 1)
+}
